@@ -285,6 +285,57 @@ fn case_sensitive_names(rep: &Report) {
     }
 }
 
+/// a macro use emits what its hand expansion emits, for parameter lists of every length 1..=14 (two-digit
+/// parameter numbers) and arguments that are prefixes of one another (1, 10, 100, 11): metamorphic, both texts go
+/// through the assembler, nothing depends on how the output is spelled
+fn wide_macros(rep: &Report, n: usize, seed: u64) {
+    par_for(n, 8, |i| {
+        let mut rng = Rng::new(seed).fork(0xC11D_0000 + i as u64);
+        let np = 1 + i % 14;
+        let names: Vec<String> = (0..np).map(|k| format!("q{}", (b'a' + k as u8) as char)).collect();
+        let pool = [1u16, 10, 100, 11, 110, 2, 20, 0, 101, 12, 21, 255, 1000, 65535];
+        let args: Vec<u16> = (0..np).map(|_| *rng.pick(&pool)).collect();
+        let regs = ["ax", "bx", "cx", "dx", "si", "di"];
+        let mut body = String::new();
+        let mut hand = String::new();
+        // the last parameter always, others at random
+        let mut used: Vec<usize> = (0..np).filter(|_| rng.chance(1, 2)).collect();
+        used.push(np - 1);
+        for k in used {
+            let op = *rng.pick(&["mov", "add", "xor", "cmp"]);
+            let r = *rng.pick(&regs);
+            body.push_str(&format!("{} {},{} ", op, r, names[k]));
+            hand.push_str(&format!("{} {},{}\n", op, r, args[k]));
+        }
+        let argt: Vec<String> = args.iter().map(|a| a.to_string()).collect();
+        let m = format!("macro wide({}) -> {}<-\nstart:\nstc\nwide({})\nclc\n", names.join(","), body, argt.join(","));
+        let h = format!("start:\nstc\n{}clc\n", hand);
+        rep.eval(1);
+        rep.distinct_str(&format!("wide-macro|{}", np));
+        let (am, ah) = (assemble(&m), assemble(&h));
+        let bad = match (&am, &ah) {
+            (Ok(a), Ok(b)) => a.code != b.code,
+            (Err(_), Ok(_)) => true,
+            _ => false,
+        };
+        if bad {
+            rep.fail(Failure {
+                sig: "sem:macro-parameter-count".into(),
+                what: "C11: a macro use does not emit what its hand expansion emits (many parameters / arguments that are prefixes of one another)".into(),
+                witness: format!(
+                    "{{\"kind\": \"src\", \"source\": {}, \"hand_expanded\": {}, \"emitted\": {}, \"expected\": {}}}",
+                    json_str(&m),
+                    json_str(&h),
+                    json_str(&format!("{:?}", am.as_ref().map(|a| a.code.clone()).map_err(|e| format!("{:?}", e)))),
+                    json_str(&format!("{:?}", ah.as_ref().map(|a| a.code.clone()).map_err(|e| format!("{:?}", e))))
+                ),
+                core_item: None,
+            });
+        }
+    });
+    rep.count("macro uses with 1..14 parameters compared with their hand expansion", n as u64);
+}
+
 /// the comment layer lives in the binary: its hook trace must show the same lines as the in-process replica
 fn cli_comments(rep: &Report, n: usize, seed: u64) {
     par_for(n, 1, |i| {
@@ -404,6 +455,7 @@ fn offset_spelling(rep: &Report, n: usize, seed: u64) {
 pub fn run(rep: &Report) {
     case_sensitive_labels(rep);
     case_sensitive_names(rep);
+    wide_macros(rep, if rep.thorough() { 20_000 } else { 280 }, rep.seed ^ 0x11D);
     offset_spelling(rep, if rep.thorough() { 40_000 } else { 600 }, rep.seed);
     // deterministic core
     par_for(400, 8, |i| {
